@@ -163,6 +163,7 @@ def run_view(c):
         except IndexError:
             segs.append(None)
     out["segs"] = segs
+    out.update(probe_json(m, segs))
     # a fresh object: segments[] caches what it instantiated
     m2 = make_morph(c)
     try:
@@ -191,7 +192,9 @@ def morph_json(m, views=False):
     if views:
         # the segment view and the conversion of a morphology that came out of ArrayMorphLoader
         try:
-            extra = {"len": len(m.segments), "view": view_json(m), "conv": conv_json(m)}
+            extra = {"len": len(m.segments), "view": view_json(m)}
+            extra.update(probe_json(m, extra["view"]))
+            extra["conv"] = conv_json(m)
         except Exception as e:  # noqa: BLE001
             extra = {"len": None, "view": None, "conv": None, "view_error": exc_name(e)}
     return {**extra, "verts": vbits(v),
@@ -208,7 +211,7 @@ def close_all():
         pass
 
 
-def roundtrip(data, written, tmp, tag, path=None):
+def roundtrip(data, written, tmp, tag, path=None, cleanup=True):
     """write `data`, load it back; `written` = the ArrayMorphology objects the file must contain"""
     path = path or os.path.join(tmp, tag + ".h5")
     out = {}
@@ -216,7 +219,8 @@ def roundtrip(data, written, tmp, tag, path=None):
     try:
         writers.ArrayMorphWriter.write(data, path)
     except Exception as e:  # noqa: BLE001
-        close_all()
+        if cleanup:
+            close_all()
         out["r"] = exc_name(e)
         out["stage"] = "write"
         out["msg"] = str(e)[:200]
@@ -303,6 +307,21 @@ def run_history(c, tmp, tag):
             f.write(b"not an hdf5 file")
     res = []
     for step in c["steps"]:
+        if "bad" in step:
+            # an object the writer does not support; whatever it does with it (raise, or write nothing), the path must
+            # stay usable: the next valid write + load on the same path has to round-trip.  No clean-up in between.
+            obj = {"cell": neuroml.Cell(id="c"), "morphology": neuroml.Morphology(id="m"), "none": None,
+                   "list": [1, 2, 3], "string": "data", "segment": neuroml.Segment(id=0)}[step["bad"]]
+            try:
+                writers.ArrayMorphWriter.write(obj, path)
+                res.append({"r": "accepted", "bad": step["bad"]})
+            except Exception as e:  # noqa: BLE001
+                res.append({"r": "raises:" + exc_name(e), "bad": step["bad"], "msg": str(e)[:160]})
+            try:
+                res[-1]["open_handles_after"] = len(tables.file._open_files.filenames)
+            except Exception:  # noqa: BLE001
+                res[-1]["open_handles_after"] = None
+            continue
         try:
             if "doc" in step:
                 data, written = build_doc(step["doc"])
@@ -312,7 +331,8 @@ def run_history(c, tmp, tag):
         except Exception as e:  # noqa: BLE001
             res.append({"r": "build:" + exc_name(e)})
             continue
-        res.append(roundtrip(data, written, tmp, tag, path=path))
+        res.append(roundtrip(data, written, tmp, tag, path=path, cleanup=False))
+    close_all()
     return {"steps": res}
 
 
@@ -325,6 +345,36 @@ def view_json(m):
         except IndexError:
             segs.append(None)
     return segs
+
+
+def probe_json(m, segs_before):
+    """negative clause: which indices outside 0..len-1 does the view answer?  Probe -1, -2, -(n-1), -n, -(n+1), n-1, n,
+    len, len+1; afterwards len, the segments 0..len-1 and the instantiated cache must be what they were (plus exactly
+    the answered probes)."""
+    n = int(m.num_vertices)
+    L = len(m.segments)
+    ks = []
+    for k in (-1, -2, -(n - 1), -n, -(n + 1), n - 1, n, L, L + 1):
+        if not (0 <= k < L) and k not in ks:
+            ks.append(k)
+    probes = []
+    for k in ks:
+        try:
+            probes.append([k, seg_json(m.segments[k])])
+        except IndexError:
+            probes.append([k, None])
+        except Exception as e:  # noqa: BLE001
+            probes.append([k, "exc:" + exc_name(e)])
+    answered = [k for k, r in probes if isinstance(r, list)]
+    try:
+        len_after = len(m.segments)
+        after = view_json(m)
+    except Exception as e:  # noqa: BLE001
+        len_after, after = None, "exc:" + exc_name(e)
+    keys = sorted(int(k) for k in m.segments.instantiated_segments.keys())
+    return {"probes": probes, "len_after_probes": len_after, "segs_same_after_probes": after == segs_before,
+            "cache_keys": keys,
+            "cache_expected": sorted(set([k for k in range(L) if segs_before[k] is not None] + answered))}
 
 
 def conv_json(m):
